@@ -575,8 +575,11 @@ class FastSimulation(object):
             with open(self.code_file, 'w') as file:
                 file.write(s)
 
-        self.tracer._set_initial_values(self.default_value, self.regs.copy(),
-                                        copy.deepcopy(self.mems))
+        # keyed the way output_verilog_testbench looks them up: by Register and by memory id
+        self.tracer._set_initial_values(
+            self.default_value,
+            {r: self.regs[r.name] for r in reg_set},
+            {mem.id: copy.deepcopy(mem_map) for (mem, mem_map) in memory_value_map.items()})
 
         context = {}
         logic_creator = compile(s, '<string>', 'exec')
